@@ -212,29 +212,28 @@ Theorem C12_ovl_opts_offered : forall c t capable,
   (has o F_PERFILE_DAX = true -> contains capable F_PERFILE_DAX = true /\ c_perfile_dax c = true).
 Proof. exact ovl_opts_offered. Qed.
 
-(* ---- full statements the faithful model refutes (known findings; see notes/C12.md) ---- *)
+(* ---- full statements that the model refuted before the fix: commits 3c323ec / 018111a; now theorems ---- *)
 
-(* across INIT / DESTROY / INIT the layer switches follow the LAST negotiation *)
-Definition C12_toggles_history_full : Prop := toggles_history_full.
-Theorem C12_toggles_history_refuted : ~ C12_toggles_history_full.
-Proof. exact toggles_history_refuted. Qed.
-Theorem C12_ovl_toggles_history_refuted : ~ ovl_history_full.
-Proof. exact ovl_history_refuted. Qed.
-Theorem C12_toggles_history_partial : forall c caps,
-  toggles_from (pt_run c toggles_off caps) caps /\ toggles_from (ovl_run c toggles_off caps) caps.
-Proof. exact toggles_history_partial. Qed.
+(* across any INIT / DESTROY / INIT history the layer switches follow the LAST negotiation *)
+Definition C12_toggles_history_statement : Prop := toggles_history_full.
+Theorem C12_toggles_history_full : C12_toggles_history_statement.
+Proof. exact toggles_history_holds. Qed.
 
-(* every overlay behaviour is switched on only when negotiated *)
-Definition C12_ovl_behaviour_full : Prop := ovl_behaviour_full.
-Theorem C12_ovl_behaviour_refuted : ~ C12_ovl_behaviour_full.
-Proof. exact ovl_behaviour_refuted. Qed.
-Theorem C12_ovl_behaviour_partial : forall c capable,
-  let b := ovl_behaviour c (snd (ovl_init c toggles_off capable)) in
-  (b_open_enosys b = true -> contains capable F_ZERO_MESSAGE_OPEN = true) /\
-  (b_opendir_enosys b = true -> contains capable F_ZERO_MESSAGE_OPENDIR = true) /\
-  (c_writeback c = false -> b_writeback_flags b = false) /\
-  b_killpriv b = false /\ b_dax b = false.
-Proof. exact ovl_behaviour_partial. Qed.
+(* ... indeed they are those of a fresh instance given the last word *)
+Theorem C12_toggles_history_last : forall c caps capable,
+  snd (pt_init c (pt_run c toggles_off caps) capable) = snd (pt_init c toggles_off capable) /\
+  snd (ovl_init c (ovl_run c toggles_off caps) capable) = snd (ovl_init c toggles_off capable).
+Proof. exact toggles_history_last. Qed.
+
+(* every passthrough / overlay behaviour is switched on only when negotiated by the last INIT,
+   whatever the switches were before *)
+Theorem C12_pt_behaviour_full : forall c t capable,
+  behaviour_within (pt_behaviour c (snd (pt_init c t capable))) capable.
+Proof. exact pt_behaviour_negotiated_any. Qed.
+
+Definition C12_ovl_behaviour_statement : Prop := ovl_behaviour_full.
+Theorem C12_ovl_behaviour_full : C12_ovl_behaviour_statement.
+Proof. exact ovl_behaviour_holds. Qed.
 
 (* ================================================================== non-vacuity witnesses *)
 Definition ex_cfg : config := {| cfg_minor := 33; cfg_remap := RemapOk 0 0; cfg_vu_req := false; cfg_fsopt_mask := fsoptions_all |}.
@@ -275,6 +274,24 @@ Example C12_ex_pt_standalone :
   t_writeback (snd (pt_init (mkC true true false false false false) toggles_off F_WRITEBACK_CACHE)) = true.
 Proof. vm_compute. split; reflexivity. Qed.
 
+(* the former refutation witnesses: INIT(all) switches no-open on, DESTROY + INIT(0) switches everything off *)
+Example C12_ex_reinit_pt :
+  t_no_open (pt_run under_vfs toggles_off [all_caps]) = true /\
+  snd (pt_init under_vfs (pt_run under_vfs toggles_off [all_caps]) 0) = toggles_off.
+Proof. exact reinit_witness_pt. Qed.
+
+Example C12_ex_reinit_ovl :
+  t_no_open (ovl_run under_vfs toggles_off [all_caps]) = true /\
+  snd (ovl_init under_vfs (ovl_run under_vfs toggles_off [all_caps]) 0) = toggles_off.
+Proof. exact reinit_witness_ovl. Qed.
+
+(* overlay with writeback configured: flags are rewritten only when WRITEBACK_CACHE was negotiated *)
+Example C12_ex_ovl_writeback :
+  let c := mkC true true false false false false in
+  b_writeback_flags (ovl_behaviour c (snd (ovl_init c toggles_off 0))) = false /\
+  b_writeback_flags (ovl_behaviour c (snd (ovl_init c toggles_off F_WRITEBACK_CACHE))) = true.
+Proof. exact ovl_writeback_witness. Qed.
+
 Print Assumptions C12_reply_layout_by_minor.
 Print Assumptions C12_known_bits_contain_marker.
 Print Assumptions C12_request_encoding.
@@ -304,8 +321,7 @@ Print Assumptions C12_pt_standalone_needs_switch.
 Print Assumptions C12_pt_behaviour_negotiated.
 Print Assumptions C12_pt_opts_offered.
 Print Assumptions C12_ovl_opts_offered.
-Print Assumptions C12_toggles_history_refuted.
-Print Assumptions C12_ovl_toggles_history_refuted.
-Print Assumptions C12_toggles_history_partial.
-Print Assumptions C12_ovl_behaviour_refuted.
-Print Assumptions C12_ovl_behaviour_partial.
+Print Assumptions C12_toggles_history_full.
+Print Assumptions C12_toggles_history_last.
+Print Assumptions C12_pt_behaviour_full.
+Print Assumptions C12_ovl_behaviour_full.
